@@ -118,6 +118,42 @@ def _check(job):
     return n, divs
 
 
+def _check_obsfcst(cases):
+    """the table behind the obs/fcst diagram with quantile lines: one column per drawn series, named after the input it belongs to"""
+    from harness.checks import c16
+    wd = par.workdir()
+    n = 0
+    divs = []
+    for c, kind in cases:
+        paths = c16.prob_files(c, wd)
+        names = [os.path.basename(p) for p in paths]
+        cols = [s["label"] if isinstance(s["label"], str) else names[s["label"][1] - 1] + (s["label"][2] if len(s["label"]) > 2 else "") for s in c["series"]]
+        nloc = len(c["series"][0]["x"])
+        want = [{"desc": {"kind": "location", "id": k + 1, "lat": 50 + k, "lon": 10, "elev": 0}, "scores": [s["y"][k] for s in c["series"]]} for k in range(nloc)]
+        argv = paths + list(c["argv"]) + ["-type", kind]
+        rep = {"kind": "table", "argv": argv, "files": [open(p).read() for p in paths], "expected": want, "type": kind, "axis": "location"}
+        status, text = run_verif(argv)
+        n += 1
+        if status != "ok":
+            divs.append((status.split(" ")[0] if status.startswith("exception") else "table:" + status, "%s -> %s" % (" ".join(argv[2:]), status), rep))
+            continue
+        header, rows = table.parse(text, kind)
+        rep["observed"] = text
+        if kind == "text":
+            header = _join_names(header, cols)
+        for msg in table.compare(want, cols, header, rows, 6 if kind == "csv" else 4, "location")[:3]:
+            divs.append(("table:obsfcst-quantiles", "%s: %s" % (" ".join(argv[2:]), msg), rep))
+    return n, divs
+
+
+def _join_names(header, cols):
+    """the text format separates cells by blanks and so does a name like `file 10%`: re-join the header cells that spell the expected names, in order"""
+    want = [w for c in cols for w in c.split()]
+    if header[-len(want):] == want:
+        return header[:-len(want)] + list(cols)
+    return header
+
+
 def run(ctx):
     ctx.rule = ("case = (dataset, metric from a 10-metric menu, one of 16 axes incl. threshold) x {text, csv} x {stdout, -f} x {-leg, none} "
                 "x {-acc, none}; non-trivial = the table has more than one row or a missing score")
@@ -146,6 +182,16 @@ def run(ctx):
         ctx.evaluations += n
         for site, detail, rep in divs:
             ctx.diverge(site, rep, detail=detail)
+    res3 = tlc.run("MC_ProbDiagrams", "MC_ProbDiagrams_obsfcst", tag=ctx.pid + "_obsfcst", timeout_s=900)
+    ctx.add_tlc("MC_ProbDiagrams/obsfcst", res3, {"Only": "obsfcst"})
+    ocases = [(c, kind) for c in res3.emitted for kind in ("csv", "text")]
+    if ctx.tier == "quick":
+        ocases = rng.sample(ocases, min(len(ocases), 40))
+    for n, divs in par.pmap(_check_obsfcst, [ocases[i:i + 4] for i in range(0, len(ocases), 4)], chunk=1):
+        ctx.evaluations += n
+        for site, detail, rep in divs:
+            ctx.diverge(site, rep, detail=detail)
+    ctx.traces += len(ocases)
     ctx.traces += sum(len(c) for _, c in jobs)
     for o, _ in jobs:
         if len(o["table"]) > 1 or "undef" in str(o["table"]):
